@@ -706,6 +706,9 @@ class Interp:
                     return ("const", x >= y)
             except TypeError:
                 pass
+        # --- identity of two abstract CNFs / collections: the same object iff the same descriptor
+        if op == "Is" and isinstance(a, ElemV) and isinstance(b, ElemV) and a.role == b.role and a.role in ("cnf", "coll", "set", "layer"):
+            return ("const", a.var == b.var)
         # --- three-valued z3 check results
         for x, y in ((a, b), (b, a)):
             if isinstance(x, ElemV) and x.role == "check" and isinstance(y, ExtV) and y.name in ("z3.sat", "z3.unsat", "z3.unknown", "z3.z3.sat", "z3.z3.unsat", "z3.z3.unknown"):
